@@ -119,6 +119,9 @@ func C09_Vote() {
 			}
 		}
 	}
+	for x := 0; x < env.ParamOr("extra_timeouts", 0); x++ {
+		n.timeout() // further election timeouts without any traffic (a full cycle of the committee and more)
+	}
 	from := len(n.comm.Out)
 	nreg := len(n.el.Regs)
 	n.timeout()
